@@ -34,7 +34,7 @@ from .talcommon import run_real
 REC = re.compile(
     r' - Expression: "(?P<expr>(?s:.*?))"\n - Filename:   (?P<file>[^\n]*)\n'
     r' - Location:   \(line (?P<line>\d+): col (?P<col>\d+)\)')
-ALL_CLASSES = CAUGHT_NAMES + UNCAUGHT_NAMES + ["RecursionError"] + NONEXC_NAMES
+ALL_CLASSES = CAUGHT_NAMES + UNCAUGHT_NAMES + NONEXC_NAMES
 
 
 def parse_records(msg: str) -> list:
